@@ -18,6 +18,12 @@ def Ty.name : Ty → String
   | .byte => "Byte" | .int16 => "Int16" | .uint16 => "UInt16" | .int32 => "Int32"
   | .uint32 => "UInt32" | .float32 => "Float32" | .float64 => "Float64" | .string => "String"
 
+/-- `type.lower()`, the key of `LOWER_DAP2_TO_NUMPY_PARSER_TYPEMAP` (spelled out: `String.toLower` does
+    not reduce in the kernel) -/
+def Ty.lname : Ty → String
+  | .byte => "byte" | .int16 => "int16" | .uint16 => "uint16" | .int32 => "int32"
+  | .uint32 => "uint32" | .float32 => "float32" | .float64 => "float64" | .string => "string"
+
 def Ty.all : List Ty := [.byte, .int16, .uint16, .int32, .uint32, .float32, .float64, .string]
 
 def Ty.ofName (s : String) : Option Ty := Ty.all.find? (fun t => t.name == s)
@@ -38,7 +44,7 @@ def dtypeChar : String → Option Char
 def wireStr (t : Ty) : String := (Gen.DAP2_TO_NUMPY_RESPONSE_TYPEMAP.lookup t.name).getD "?"
 
 /-- `LOWER_DAP2_TO_NUMPY_PARSER_TYPEMAP[ty.lower()]` -/
-def parserStr (t : Ty) : String := (Gen.LOWER_DAP2_TO_NUMPY_PARSER_TYPEMAP.lookup t.name.toLower).getD "?"
+def parserStr (t : Ty) : String := (Gen.LOWER_DAP2_TO_NUMPY_PARSER_TYPEMAP.lookup t.lname).getD "?"
 
 /-- `DAP2_response_dtypemap(dtype).itemsize`: bytes one element occupies on the wire (0 for strings;
     0 as well when the table has no entry — the table theorems of C05 exclude that) -/
